@@ -1,6 +1,8 @@
 -- C17 battery: concrete escape attempts. Every attempt is isolated by pcall; the report says for each
 -- attempt whether it raised ("blocked:<error>") or what it returned ("ok:<value>").
 local function S(v) return tostring(v) end
+-- references captured while the top-level chunk runs: a sandbox applied only afterwards would leave them usable
+local L_dofile, L_loadfile, L_io, L_os, L_require, L_package, L_debug = dofile, loadfile, io, os, require, package, debug
 
 function validate(ctx, content)
   local a = ctx.attrs
@@ -47,6 +49,13 @@ function validate(ctx, content)
   try("coroutine_dofile", function() return coroutine.wrap(function() return dofile(nonce) end)() end)
   try("pcall_require", function() local ok, m = pcall(require, "debug"); if not ok then error(m) end; return type(m) end)
   try("searchers", function() return #(package.searchers) end)
+  try("loadtime_dofile", function() return L_dofile(nonce) end)
+  try("loadtime_loadfile", function() local f, e = L_loadfile(nonce); if f == nil then error(e) end; return f() end)
+  try("loadtime_io", function() return L_io.open(nonce, "r"):read("a") end)
+  try("loadtime_os", function() return L_os.getenv("BWVERIF_SECRET_ENV") end)
+  try("loadtime_require", function() return L_require("io") ~= nil end)
+  try("loadtime_package", function() return L_package ~= nil and L_package.loadlib ~= nil end)
+  try("loadtime_debug", function() return type(L_debug.getregistry()) end)
   try("print_exists", function() return type(print) end)
   return "BATTERY\n" .. table.concat(out, "\n")
 end
